@@ -28,6 +28,8 @@ pub const SACTS: &[SAct] = &[SAct::Insert, SAct::OrInsert, SAct::Remove, SAct::I
 
 #[derive(Clone, Copy, Debug, PartialEq, Eq, Hash, Serialize, Deserialize)]
 pub enum SetOp {
+    /// unsafe insert_unique_unchecked - offered only for absent elements (its contract)
+    InsertUniqueUnchecked(u8),
     Insert(u8),
     Replace(u8),
     Take(u8),
@@ -120,6 +122,10 @@ impl SetSut {
         inv::check_structure(&d, inv::Which { lawful_hash: true }, &|i| {
             set.verif_bucket(i).map(|k| if alt { env::with(|e| e.plan_b[k.id as usize]) } else { plan_hash(k.id) })
         })?;
+        if self.set.hasher().alt != self.alt {
+            return Err(format!("hasher() returns hasher state {} but the set was built with (or cloned from a set with) state {}", self.set.hasher().alt, self.alt));
+        }
+        let _: &CheckAlloc = self.set.allocator();
         if self.set.len() != self.model.len() || self.set.is_empty() != self.model.is_empty() {
             return Err(format!("len() = {} but the reference set holds {}", self.set.len(), self.model.len()));
         }
@@ -218,6 +224,14 @@ impl SetHarness {
                 let r = s.set.remove(&KeyRef(id));
                 let want = s.mpos(id).map(|p| s.model.swap_remove(p)).is_some();
                 chk!(c, r == want, "remove({id}) returned {r}, reference {want}");
+            }
+            SetOp::InsertUniqueUnchecked(id) => {
+                let t = s.tok();
+                debug_assert!(s.mpos(id).is_none());
+                // SAFETY (contract of the method): the element is not in the set
+                let r = unsafe { s.set.insert_unique_unchecked(TKey::make(id, t)) };
+                chk!(c, r.id == id && r.tok == t, "insert_unique_unchecked({id}) returned a reference to another element");
+                s.model.push((id, t));
             }
             SetOp::GetOrInsert(id) => {
                 let t = s.tok();
@@ -447,6 +461,9 @@ impl Harness for SetHarness {
             if self.cfg.full_alphabet {
                 v.push(SetOp::Replace(id));
                 v.push(SetOp::Take(id));
+                if s.mpos(id).is_none() {
+                    v.push(SetOp::InsertUniqueUnchecked(id));
+                }
                 v.push(SetOp::GetOrInsert(id));
                 v.push(SetOp::GetOrInsertWith(id));
                 v.push(SetOp::GetOrInsertWithBad(id));
